@@ -51,9 +51,8 @@ def run(ctx):
                        "length bound (sampled in quick), random large/deep ones; the model chain kernel_string -> Gallina PEG "
                        "parse of the regenerated grammar -> resolve_kernel_loops is compared with the implementation's chain; "
                        "non-trivial = distinct agreed results")
-    ctx.cov["partial"] = ["tree_exists_full: every well-formed, aligned, domain-level-complementary (sequence, structure) is the "
-                          "flattening of a kernel tree (not proved; the chain is run on such complexes instead)",
-                          "pattern_parses_render_full: the PEG interpreter returns to_tokens t on the rendering of t (C13)"]
+    ctx.cov["partial"] = ["kernel_roundtrip_default_fuel_full: the chain theorem is proved for every sufficiently large parser fuel; that the "
+                          "interpreter's default fuel is sufficient is not proved (OutOfFuel never occurred in any run)"]
     if found and res["ok"] and not diffs:
         for f in found[:10]:
             ctx.violation("counterexample", f)
